@@ -1,6 +1,6 @@
 PROPS["C09"] = dict(
     harnesses=[dict(name="C09", procs_quick=2, procs_thorough=16)],
-    gens=["gen_math", "gen_rhumbarea"],
+    gens=["gen_math", "gen_rhumbarea", "gen_auxseries"],
     rule=("ellipsoids f in {WGS84 (x2), 0, +-0.001, +-0.01, 1/150 (a = 1), -1/298.26} series and exact, +-0.1 exact only. Inverse: uniform; latitudes 1e-12..1 m "
           "apart (also 1..4 ulp apart) with up to 179 deg of longitude; both latitudes within 1e-12..1e-6 deg of the equator / of a pole; poles; lon2 - lon1 = "
           "+-180 exactly (+360k); same parallel; same / nearly same meridian; lat2 = -lat1(1 + 1e-9 u); short lines 1e-9..1 deg; longitudes incl. +-180, 360, "
@@ -26,8 +26,9 @@ PROPS["C09"] = dict(
                 "coefficient list; (dclenshaw_dd, dclenshaw_diff, dclen_pair); the two-step beyond-the-pole reduction of GenPosition returns, for every real mu2 and every normaliser satisfying the AngNormalize "
                 "contract, the reflected rectifying latitude in [-90, 90] with the same sine, while the one-step form does not (counter-example mu2 = 300); the inverse "
                 "wrapper returns a course whose azimuth satisfies sin(azi) psi12 = cos(azi) lam12 with the right signs, s12 cos(azi) = R dmu and |lon12| <= 180 from the "
-                "AngDiff contract, sign of a +-180 tie as coded (finding F4). Table certificate: the series-mode AreaCoeffs table re-extracted from Rhumb.cpp is checked "
-                "for shape (triangular, Lmax rows) only; its values are validated by the quadrature oracle (partial). Correspondence: formula models vs private kernels; GenInverse / "
+                "AngDiff contract, sign of a +-180 tie as coded (finding F4). Table certificate rhumb_area_table (decide +kernel, re-checked against the source each run): the 21 AreaCoeffs entries "
+                "re-extracted from Rhumb.cpp satisfy the defining relation p'(beta) = (1-f)(sin xi - sin chi)/cos phi of the rhumb area series modulo n^7, with phi, chi, xi "
+                "the auxiliary-latitude series of AuxLatitude.cpp certified by C15 (this determines every entry). Correspondence: formula models vs private kernels; GenInverse / "
                 "GenPosition decision logic executed exactly over the F64 softfloat around the implementation's own kernel values. Oracles on the implementation in 80-bit arithmetic, "
                 "independent of the library: s12, azi12, lat2, lon2, S12 vs meridian-arc quadrature, closed-form isometric and authalic latitudes with cancellation-free differences; "
                 "Direct o Inverse, Inverse o Direct, RhumbLine == Direct, series vs exact, east-going ties, beyond-the-pole latitude and NaNs. Partial: no theorem bounds the "
